@@ -44,9 +44,11 @@ Theorem C21_depth : forall b, Z.of_nat (std_fuel b) = len b / 4 + 2.
 Proof. exact std_fuel_depth. Qed.
 Print Assumptions C21_depth.
 
-(* The only allocation that is sized by attacker-controlled input, make([]T, 0, n % limit) for
-   a header count n > 0, never exceeds bin.PreallocateLimit (generated from bin/const.go) and
-   never has a negative capacity (which would panic: make_cap in the model). *)
+(* The only allocation that is sized by attacker-controlled input: `if headerLen > 0 { make([]T, 0,
+   headerLen % bin.PreallocateLimit) }`.  Guard, capacity expression and limit are all generated
+   (prealloc_guard_go, prealloc_cap_go from a generated decoder, the limit from bin/const.go; every
+   other vector site is checked to be textually identical by tools/c21-prealloc-sites): the capacity
+   never exceeds the limit and is never negative (which would panic: make_cap in the model). *)
 Theorem C21_prealloc : forall n, 0 <= prealloc n <= c_PreallocateLimit.
 Proof. exact prealloc_bound. Qed.
 Print Assumptions C21_prealloc.
@@ -54,10 +56,13 @@ Print Assumptions C21_prealloc.
 (* ---- the schemas generated from /repo are well-formed ---- *)
 Theorem C21_tg_wf : schema_wf tg_schema = true.
 Proof. vm_compute. reflexivity. Qed.
+Print Assumptions C21_tg_wf.
 Theorem C21_mt_wf : schema_wf mt_schema = true.
 Proof. vm_compute. reflexivity. Qed.
+Print Assumptions C21_mt_wf.
 Theorem C21_e2e_wf : schema_wf e2e_schema = true.
 Proof. vm_compute. reflexivity. Qed.
+Print Assumptions C21_e2e_wf.
 
 Theorem C21_roundtrip_tg :
   forall t fuel v, wt tg_schema fuel t v = true ->
@@ -141,3 +146,35 @@ Example C21_access_point_rule :
   let v := VObj 0x4679b65f [VBy [43]; VZ 2; VVec [VObj 0xd433ad73 [VZ 1; VZ 443]; VObj 0x37982646 [VZ 2; VZ 80; VBy [1; 2; 3]]]] in
   wt_by_id tg_schema 0 0x4679b65f v = true /\ rt_by_id tg_schema 0 0x4679b65f v = true.
 Proof. vm_compute. split; reflexivity. Qed.
+
+(* ---- reused receivers (audit): the round trip is a statement about decoding into a FRESH
+        value (what tmap constructors hand out).  Decoding into a receiver that already holds
+        a value keeps optional fields whose bit is clear and vectors whose count is 0:
+        decode_into (Model/TlSchema.v, validated against the generated code by the harness
+        stream `dirty`) does NOT return the encoded value.  Known finding
+        stale-state-on-reused-receiver; what holds is C21_roundtrip. ---- *)
+Definition reuse_old : value :=
+  VObj 0x91cc4674 [VZ 2048; VBool false; VZ 5; VZ 0; VBy [104; 105]; VNil; VNil; VBy [97; 98]; VZ 0; VZ 0].
+Definition reuse_new : value :=
+  VObj 0x91cc4674 [VZ 0; VBool false; VZ 9; VZ 0; VBy [120]; VNil; VNil; VBy []; VZ 0; VZ 0].
+Definition reuse_check : bool :=
+  match ty_of e2e_schema 0 0x91cc4674 with
+  | Some (TBoxed ci) =>
+      match encode e2e_schema (TBoxed ci) reuse_new with
+      | Ok bs =>
+          wt e2e_schema 1 (TBoxed ci) reuse_new &&
+          match decode e2e_schema (TBoxed ci) (std_fuel bs) bs with Ok (v, []) => value_eqb v reuse_new | _ => false end &&
+          match decode_into e2e_schema ci (std_fuel bs) reuse_old bs with
+          | Ok (v, []) =>
+              (* the stale via_bot_name "ab" of the old value survives although bit 11 is clear *)
+              value_eqb v (VObj 0x91cc4674 [VZ 0; VBool false; VZ 9; VZ 0; VBy [120]; VNil; VNil; VBy [97; 98]; VZ 0; VZ 0]) &&
+              negb (value_eqb v reuse_new)
+          | _ => false
+          end
+      | _ => false
+      end
+  | _ => false
+  end.
+Theorem C21_reuse_refuted : reuse_check = true.
+Proof. vm_compute. reflexivity. Qed.
+Print Assumptions C21_reuse_refuted.
